@@ -23,7 +23,8 @@ func init() {
 			"copyFile reports success only after a hash comparison or for size 0 (R5.2b); no truncating open of cache files (R5.3); " +
 			"GetFile/GetBytes succeed only under size/checksum equality (R5.4); get succeeds only after rejecting short reads, foreign ids, parse errors and negative sizes (R5.5); " +
 			"nothing outside the cache package bypasses GetFile (R5.6); a failed lookup only selects recomputation (R5.7); the writer's and the reader's layout of an index entry agree: fixed-width format, total length = entrySize, separator offsets, the byte range and order of each field (R5.8). " +
-			"It does NOT decide interleavings of several processes, file-system atomicity, fsync/power loss, trim timing or GOCACHEPROG back ends.",
+			"It does NOT decide interleavings of several processes, file-system atomicity, fsync/power loss, trim timing or GOCACHEPROG back ends." +
+			" Also decided: put reports success only behind copyFile's nil-error edge (an index entry alone does not prove the data file is complete).",
 		RuleText: "obligation = (rule, function::site) evaluated on the SSA CFG of /repo's current sources with must-pass-through-edge and value-origin queries; " +
 			"non-trivial = the verdict needed a path or backward-slice query (not just a lookup)",
 		Assumptions: []string{
